@@ -1226,17 +1226,32 @@ def rule_typenames_are_keys(ctx, rep: Report, rid="P3"):
                 if not (left_names & tainted):
                     continue
                 comp = c.comparators[0]
-                stringy = False
-                if isinstance(comp, ast.Name):
-                    if anns.get(comp.id) == "str":
-                        stringy = True
-                    for d in local_assignments(fn).get(comp.id, []):
-                        if isinstance(d, ast.Assign) and isinstance(d.value, ast.Call) and unparse(d.value.func) in ("str", "repr"):
-                            stringy = True
-                elif isinstance(comp, ast.Call) and unparse(comp.func) in ("str", "repr"):
-                    stringy = True
-                elif isinstance(comp, ast.JoinedStr):
-                    stringy = True
+
+                def is_text(e, depth=4) -> bool:
+                    """The expression is certainly a str (a spelling), not a list of components."""
+                    if depth <= 0:
+                        return False
+                    if isinstance(e, ast.JoinedStr) or (isinstance(e, ast.Constant) and isinstance(e.value, str)):
+                        return True
+                    if isinstance(e, ast.Name):
+                        if anns.get(e.id) == "str":
+                            return True
+                        ds = [d.value for d in local_assignments(fn).get(e.id, []) if isinstance(d, ast.Assign)]
+                        return bool(ds) and all(is_text(v, depth - 1) for v in ds)
+                    if isinstance(e, ast.Call):
+                        f_ = unparse(e.func)
+                        if f_ in ("str", "repr"):
+                            return True
+                        if isinstance(e.func, ast.Attribute) and e.func.attr in ("format", "join", "replace", "strip", "lstrip", "rstrip", "lower", "upper",
+                                                                                  "to_cpp", "qualified_name", "instantiated_name"):
+                            return True
+                        return False
+                    if isinstance(e, ast.BinOp) and isinstance(e.op, (ast.Add, ast.Mod)):
+                        return is_text(e.left, depth - 1) or is_text(e.right, depth - 1)
+                    if isinstance(e, ast.Subscript) and isinstance(e.slice, ast.Slice):
+                        return is_text(e.value, depth - 1)
+                    return False
+                stringy = is_text(comp)
                 n += 1
                 rep.add(rid, f"keys-only:{fid.qual}:{unparse(c)[:50]}", not stringy,
                         f"a template parameter name is searched for *inside a type spelling* ({unparse(c)}): any "
